@@ -272,6 +272,15 @@ impl Prop for C06 {
             Part { name: "huge-minimum".into(), strategy: huge_min_part(), cases: tier.pick(20_000, 200_000) },
         ]
     }
+    fn enumerations(&self, tier: Tier) -> Vec<(String, String, Box<dyn Iterator<Item = StrCase> + Send>)> {
+        // every nested-quantifier pattern of C01's macro-atom scope: all four APIs must return on every short input
+        let (name, scope, it) = super::c01::macro_enumeration(tier);
+        let it = it.map(|ast| {
+            let m = ast.materialize(Dialect::XPath, &[]);
+            StrCase { dialect: Dialect::XPath, pattern: m.pattern, flags: String::new(), inputs: m.inputs, replacements: vec!["x".into()], tag: "exhaustive-nested-quantifiers".into() }
+        });
+        vec![(name, scope, Box::new(it))]
+    }
     fn extra(&self, ctx: &mut Ctx) -> Vec<(String, Verdict, Option<StrCase>)> {
         // thorough tier: libFuzzer campaign with a short per-execution timeout; timeout artifacts (and iterator-bound
         // assertion crashes) are re-judged by check_termination
